@@ -446,6 +446,13 @@ class VBSClusteringManager:
         with self._lock:
             if self._state is not VBSState.VRU_ACTIVE_STANDALONE:
                 return False
+            if (
+                self._join_substate is not _JoinSubstate.NONE
+                or self._leave_substate is _LeaveSubstate.NOTIFY
+            ):
+                # A join or leave procedure of the individual VAMs is still
+                # running; it has to finish (or be cancelled) first.
+                return False
 
             # Count nearby VRUs within MAX_CLUSTER_DISTANCE
             now = self._time_fn()
